@@ -31,10 +31,44 @@ type verifHash struct {
 	vals   []string
 }
 
+// verifObj is a non-hash key: how it was created/modified and its expiry.
+type verifObj struct {
+	key    string // "db|key"
+	ops    []string
+	hasTTL bool
+	ttl    string
+}
+
 type verifState struct {
 	hashKeys []string // "db|key"
 	hashes   []*verifHash
-	plain    []string // "db|key" of non-hash keys present
+	objs     []*verifObj
+}
+
+func (s *verifState) obj(db int, key string, create bool) *verifObj {
+	k := strconv.Itoa(db) + "|" + key
+	for _, o := range s.objs {
+		if o.key == k {
+			return o
+		}
+	}
+	if !create {
+		return nil
+	}
+	o := &verifObj{key: k}
+	s.objs = append(s.objs, o)
+	return o
+}
+
+func (s *verifState) delObj(db int, key string) bool {
+	k := strconv.Itoa(db) + "|" + key
+	for i, o := range s.objs {
+		if o.key == k {
+			s.objs = append(s.objs[:i], s.objs[i+1:]...)
+			return true
+		}
+	}
+	return false
 }
 
 func (s *verifState) hash(db int, key string, create bool) *verifHash {
@@ -64,16 +98,6 @@ func (s *verifState) delHash(db int, key string) {
 	}
 }
 
-func (s *verifState) setPlain(db int, key string) {
-	k := strconv.Itoa(db) + "|" + key
-	for _, x := range s.plain {
-		if x == k {
-			return
-		}
-	}
-	s.plain = append(s.plain, k)
-}
-
 func (s *verifState) keysIn(db int) int {
 	p := strconv.Itoa(db) + "|"
 	n := 0
@@ -82,8 +106,8 @@ func (s *verifState) keysIn(db int) int {
 			n++
 		}
 	}
-	for _, x := range s.plain {
-		if strings.HasPrefix(x, p) {
+	for _, o := range s.objs {
+		if strings.HasPrefix(o.key, p) {
 			n++
 		}
 	}
@@ -219,13 +243,50 @@ func (f *verifFake) apply(r verifReq) interface{} {
 		if f.st.hash(r.db, verifArgStr(r.args[0]), false) != nil {
 			return int64(1)
 		}
-		k := strconv.Itoa(r.db) + "|" + verifArgStr(r.args[0])
-		for _, x := range f.st.plain {
-			if x == k {
-				return int64(1)
-			}
+		if f.st.obj(r.db, verifArgStr(r.args[0]), false) != nil {
+			return int64(1)
 		}
 		return int64(0)
+	case "del", "unlink":
+		n := int64(0)
+		for _, a := range r.args {
+			k := verifArgStr(a)
+			if f.st.hash(r.db, k, false) != nil {
+				f.st.delHash(r.db, k)
+				n++
+			} else if f.st.delObj(r.db, k) {
+				n++
+			}
+		}
+		return n
+	case "restore":
+		// RESTORE key ttl payload [REPLACE] ...  (D9)
+		k := verifArgStr(r.args[0])
+		replace := false
+		for _, a := range r.args[3:] {
+			if strings.EqualFold(verifArgStr(a), "replace") {
+				replace = true
+			}
+		}
+		exists := f.st.obj(r.db, k, false) != nil || f.st.hash(r.db, k, false) != nil
+		if exists && !replace {
+			return common.RedisError("BUSYKEY Target key name already exists.")
+		}
+		f.st.delHash(r.db, k)
+		f.st.delObj(r.db, k)
+		o := f.st.obj(r.db, k, true)
+		o.ops = []string{"restore " + verifArgStr(r.args[2])}
+		if t := verifArgStr(r.args[1]); t != "0" {
+			o.hasTTL, o.ttl = true, t
+		}
+		return "OK"
+	case "pexpire", "expire":
+		o := f.st.obj(r.db, verifArgStr(r.args[0]), false)
+		if o == nil {
+			return int64(0)
+		}
+		o.hasTTL, o.ttl = true, verifArgStr(r.args[1])
+		return int64(1)
 	case "info":
 		s := "# Keyspace\r\n"
 		for db := 0; db <= f.maxDb; db++ {
@@ -235,9 +296,14 @@ func (f *verifFake) apply(r verifReq) interface{} {
 		}
 		return s
 	default:
-		// a data-modifying command on a plain key
+		// a data-modifying command on a plain key: remembered as an operation on it
 		if len(r.args) > 0 {
-			f.st.setPlain(r.db, verifArgStr(r.args[0]))
+			o := f.st.obj(r.db, verifArgStr(r.args[0]), true)
+			op := r.cmd
+			for _, a := range r.args[1:] {
+				op += " " + verifArgStr(a)
+			}
+			o.ops = append(o.ops, op)
 		}
 		return "OK"
 	}
